@@ -732,7 +732,11 @@ pub fn run_parent(prop: &dyn Property, tier: Tier, seed: u64) -> i32 {
             .arg("--out")
             .arg(&out)
             .stdout(Stdio::null())
-            .stderr(Stdio::piped())
+            .stderr(
+                fs::File::create(out.with_extension("stderr"))
+                    .map(Stdio::from)
+                    .unwrap_or_else(|_| Stdio::null()),
+            )
             .spawn()
             .expect("spawn worker");
         children.push((w, out, child));
@@ -754,11 +758,9 @@ pub fn run_parent(prop: &dyn Property, tier: Tier, seed: u64) -> i32 {
                 Err(_) => break None,
             }
         };
-        let mut stderr_text = String::new();
-        if let Some(mut e) = child.stderr.take() {
-            use std::io::Read;
-            let _ = e.read_to_string(&mut stderr_text);
-        }
+        let stderr_text = fs::read(out.with_extension("stderr"))
+            .map(|b| String::from_utf8_lossy(&b).to_string())
+            .unwrap_or_default();
         match status {
             None => {
                 inconclusive.push(format!("worker {} exceeded the wall-clock backstop and was killed", w));
@@ -774,6 +776,11 @@ pub fn run_parent(prop: &dyn Property, tier: Tier, seed: u64) -> i32 {
                     inconclusive.push(format!("worker {} wrote an unreadable report", w));
                 } else {
                     // died before finishing: the case in progress is the suspect
+                    if stderr_text.contains("panicked at src/") || stderr_text.contains("panicked at harness/src/") {
+                        let first = stderr_text.lines().skip_while(|l| !l.contains("panicked at")).take(2).collect::<Vec<_>>().join(" ");
+                        inconclusive.push(format!("worker {} hit a bug in the harness itself: {}", w, first));
+                        continue;
+                    }
                     let cur = out.with_extension("cur");
                     let desc = {
                         use std::os::unix::process::ExitStatusExt;
